@@ -182,6 +182,22 @@ def run_c11(tier, replay):
             print('VIOLATION property=C11 replay=(given) clause=%s signature=%s' % (clause, c11_signature(rec, [clause])))
         return 1 if fails else 0
 
+    # 0. the design, concurrently with everything else: exhaustive model checking of the proposed
+    #    algorithm, liveness, witnesses, rejection of the algorithm as written / of each fix left out
+    invs = ('TypeOK', 'Inv_ServerAlive', 'Inv_Others', 'Inv_Serves', 'Inv_HealthyNotAborted')
+    wit = ['W_NoBlockedAccept', 'W_NoDeadBackend', 'W_NoCtrlSendFail', 'W_NoPeerNameFail', 'W_NoOrphanHelper',
+           'W_NoUnknownCtx', 'W_NoHelperFault', 'W_LateNeverDone']
+    fixsets = ('Fix_none', 'Fix_no_hdr', 'Fix_no_ctx', 'Fix_no_peer', 'Fix_no_accept', 'Fix_no_info')
+    design = Jobs()
+    design.start('mc2', lambda: tlc.run('ServerMC', 'Server_mc.cfg', workers=8, name='mc2', timeout=1500))
+    design.start('live', lambda: tlc.run('ServerMC', 'Server_live.cfg', workers=2, name='live', timeout=900))
+    if tier == 'thorough':
+        design.start('mc3', lambda: tlc.run('ServerMC', cfg_text=_cfg(3, 'Fix_all', 'Plans_core', inv=invs), workers=8, name='mc3', timeout=3000))
+    design.start('wits', lambda: {w: tlc.run('ServerMC', cfg_text=_cfg(2, 'Fix_all', inv=(w,)), workers=1, name=w,
+                                             must_complete=False, timeout=600) for w in wit})
+    design.start('rejs', lambda: {fx: tlc.run('ServerMC', cfg_text=_cfg(1, fx, inv=invs, prop='Live_Serves'), workers=1,
+                                              name='rej' + fx, must_complete=False, timeout=600) for fx in fixsets})
+
     # 1. TLC enumerates the fault placements (path dumps = relation Allowed: scenario -> outcomes),
     #    for the algorithm as proposed (all fixes) and as written (no fix); the tap records the streams
     jobs = Jobs()
@@ -226,39 +242,28 @@ def run_c11(tier, replay):
     rt = threading.Thread(target=replay_all, daemon=True)
     rt.start()
 
-    # 3. meanwhile: the design.  Exhaustive model checking of the proposed algorithm, liveness,
-    #    witnesses, and the rejection of the algorithm as written / of each fix left out
-    invs = ('TypeOK', 'Inv_ServerAlive', 'Inv_Others', 'Inv_Serves', 'Inv_HealthyNotAborted')
-    r = tlc.run('ServerMC', 'Server_mc.cfg', workers=6, name='mc2', timeout=1500)
+    # 3. collect the design runs
+    dres = design.wait()
+    r = dres['mc2']
     ev.add_tlc('exhaustive NF=2, all fault plans, late healthy client at any moment (proposed algorithm)', r)
     if r.error:
         raise MachineryError('Server.tla (all fixes) violates its own properties: %s\n%s' % (r.error, '\n'.join(r.trace[:80])))
-    r = tlc.run('ServerMC', 'Server_live.cfg', workers=4, name='live', timeout=900)
+    r = dres['live']
     ev.add_tlc('NF=1 with PROPERTY Live_Serves under weak fairness (proposed algorithm)', r)
     if r.error:
         raise MachineryError('Server.tla (all fixes) violates liveness: %s\n%s' % (r.error, '\n'.join(r.trace[:80])))
     if tier == 'thorough':
-        r = tlc.run('ServerMC', cfg_text=_cfg(3, 'Fix_all', 'Plans_core', inv=invs), workers=8, name='mc3', timeout=3000)
+        r = dres['mc3']
         ev.add_tlc('exhaustive NF=3, core fault plans (proposed algorithm)', r)
         if r.error:
             raise MachineryError('Server.tla NF=3 violates its own properties: %s' % r.error)
-    wit = ['W_NoBlockedAccept', 'W_NoDeadBackend', 'W_NoCtrlSendFail', 'W_NoPeerNameFail', 'W_NoOrphanHelper',
-           'W_NoUnknownCtx', 'W_NoHelperFault', 'W_LateNeverDone']
-    jw = Jobs()
     for w in wit:
-        jw.start(w, lambda w=w: tlc.run('ServerMC', cfg_text=_cfg(2, 'Fix_all', inv=(w,)), workers=2, name=w,
-                                        must_complete=False, timeout=600))
-    for w, rw in jw.wait().items():
-        if rw.error != 'invariant:' + w:
-            raise MachineryError('witness %s not reachable (vacuous model): %s' % (w, rw.error))
+        if dres['wits'][w].error != 'invariant:' + w:
+            raise MachineryError('witness %s not reachable (vacuous model): %s' % (w, dres['wits'][w].error))
     ev.cov['witnesses'] = {w: 'reached' for w in wit}
-    rejected = {}
-    jr = Jobs()
-    for fx in ('Fix_none', 'Fix_no_hdr', 'Fix_no_ctx', 'Fix_no_peer', 'Fix_no_accept', 'Fix_no_info'):
-        jr.start(fx, lambda fx=fx: tlc.run('ServerMC', cfg_text=_cfg(1, fx, inv=invs, prop='Live_Serves'), workers=2,
-                                            name='rej' + fx, must_complete=False, timeout=600))
-    cex = []
-    for fx, rp in jr.wait().items():
+    rejected, cex = {}, []
+    for fx in fixsets:
+        rp = dres['rejs'][fx]
         if not (rp.error or '').startswith(('invariant:', 'temporal')):
             raise MachineryError('the algorithm with %s is not rejected by the model checker (%s)' % (fx, rp.error))
         rejected[fx] = rp.error
